@@ -693,7 +693,8 @@ def check(ctx):
     dkw_report = []
     N_default = N
     # large but legal rates (exp(-mu) underflows from mu = 746 on; the scan costs ~mu terms per value, hence the small N)
-    small = [("Poisson(746)", 80), ("Poisson(1000)", 60), ("Poisson(745)", 60), ("Binomial(1100, 0.999)", 60)] + \
+    small = [("UniformInt(0, 6*10^15)", 3000), ("UniformInt((-2^52), 2^52)", 3000), ("UniformInt(1, 5*10^31)", 3000), ("UniformInt(0, 2^53)", 3000),
+             ("Poisson(746)", 80), ("Poisson(1000)", 60), ("Poisson(745)", 60), ("Binomial(1100, 0.999)", 60)] + \
             ([("Poisson(2500)", 60), ("Poisson(800)", 400), ("Geometric(1/100000)", 300)] if not ctx.quick() else [])
     for t, N in [(t_, N_default) for t_ in dkw_cases] + small:
         eps = math.sqrt(math.log(2 / delta) / (2 * N))
@@ -718,7 +719,18 @@ def check(ctx):
                 return float(F.dispatch("P", [F.dispatch("<=", [var.obj, tt])]))
         D, where = 0.0, None
         try:
-            if var.name in DISCRETE:
+            if var.name in DISCRETE and int(xs[-1]) - int(xs[0]) > 20000:
+                # a wide integer support: the supremum is attained at a sample point or just below one
+                i = 0
+                while i < N:
+                    j = i
+                    while j + 1 < N and xs[j + 1] == xs[i]:
+                        j += 1
+                    d = max(abs((j + 1) / N - cdf(xs[i])), abs(i / N - cdf(xs[i] - 1)))
+                    if d > D:
+                        D, where = d, xs[i]
+                    i = j + 1
+            elif var.name in DISCRETE:
                 import bisect
                 for k in range(int(xs[0]) - 1, int(xs[-1]) + 1):
                     fn = bisect.bisect_right(xs, k) / N
